@@ -112,7 +112,7 @@ def _cs_scale_post(st, interp, C, res):
     st.oblige("scale.penetration(k rho) == penetration(rho)/k", R(b.items[2]) * k == R(a.items[2]))
 
 
-from pyvc.values import VFunc  # noqa
+from pyvc.values import VFunc, PyRaise  # noqa
 U_CALC_SCALE = Unit("_calculate_scattering[density scaling]", NSF + "._calculate_scattering",
                     _cs_inputs, _cs_scale_post, replay={"module": "c03", "task": "replay"},
                     doc="number density is proportional to density, so k*N stands for k*rho")
@@ -570,6 +570,33 @@ U_SUM_PIECE = Unit("_sum_piece", _SP, _sp_inputs, _sp_post,
                    replay={"module": "c17", "task": "replay"})
 
 
+def _COMPUTE_POST(st, interp, C, res):
+    """the calculator applied to weights ws and density rho, given the per-material sums `parts`"""
+    if res.outcome == "raise":
+        st.oblige("never-raises", False, kind="raises", info={"exc": res.exc})
+        return
+    ws, parts, rho = C["ws"], C["parts"], C["rho"]
+    n = sum(w * p[0] for w, p in zip(ws, parts))
+    M = sum(w * p[1] for w, p in zip(ws, parts))
+    Bre = sum(w * p[2] for w, p in zip(ws, parts))
+    Bim = sum(w * p[3] for w, p in zip(ws, parts))
+    Sg = sum(w * p[4] for w, p in zip(ws, parts))
+    v = res.value
+    ok = isinstance(v, VTuple) and len(v.items) == 3
+    st.oblige("post.shape", z3.BoolVal(ok))
+    if not ok:
+        return
+    zero = all(is_concrete_num(x) and x == 0 for x in v.items)
+    if zero:
+        st.oblige("post.zeros only for zero total weight or zero density", M * rho == 0)
+        return
+    st.oblige("post.values only when mass*density != 0", M * rho != 0)
+    N = n / ((M / rho) / z3.RealVal(AVOGADRO) * z3.RealVal(10 ** 24))
+    full = VTuple([v, VTuple([0, 0, 0]), 1])
+    for name, g in spec_scattering_goals(N, z3.RealVal(1), Bre / n, Bim / n, Sg / n, full)[:3]:
+        st.oblige("post.same as direct calculation on the weighted sums: " + name, g)
+
+
 def _compute_unit(k):
     target = NSF + ".neutron_composite_sld::_compute"
 
@@ -598,30 +625,7 @@ def _compute_unit(k):
         })
         return [VArrN(ws), rho], {}, {"parts": parts, "ws": ws, "rho": rho}
 
-    def post(st, interp, C, res):
-        if res.outcome == "raise":
-            st.oblige("never-raises", False, kind="raises", info={"exc": res.exc})
-            return
-        ws, parts, rho = C["ws"], C["parts"], C["rho"]
-        n = sum(w * p[0] for w, p in zip(ws, parts))
-        M = sum(w * p[1] for w, p in zip(ws, parts))
-        Bre = sum(w * p[2] for w, p in zip(ws, parts))
-        Bim = sum(w * p[3] for w, p in zip(ws, parts))
-        Sg = sum(w * p[4] for w, p in zip(ws, parts))
-        v = res.value
-        ok = isinstance(v, VTuple) and len(v.items) == 3
-        st.oblige("post.shape", z3.BoolVal(ok))
-        if not ok:
-            return
-        zero = all(is_concrete_num(x) and x == 0 for x in v.items)
-        if zero:
-            st.oblige("post.zeros only for zero total weight or zero density", M * rho == 0)
-            return
-        st.oblige("post.values only when mass*density != 0", M * rho != 0)
-        N = n / ((M / rho) / z3.RealVal(AVOGADRO) * z3.RealVal(10 ** 24))
-        full = VTuple([v, VTuple([0, 0, 0]), 1])
-        for name, g in spec_scattering_goals(N, z3.RealVal(1), Bre / n, Bim / n, Sg / n, full)[:3]:
-            st.oblige("post.same as direct calculation on the weighted sums: " + name, g)
+    post = _COMPUTE_POST
     return Unit("neutron_composite_sld._compute[%d materials]" % k, target, mk, post, closure=closure,
                 replay={"module": "c17", "task": "replay"})
 
@@ -889,14 +893,16 @@ U_D2O_SLDS = [Unit("_D2O_slds[%s]" % ("table=T" if t else "default table"), NSF 
                    inline={"periodictable.core.default_table"}, replay={"module": "c16", "task": "replay"}) for t in (False, True)]
 
 
-# ------------------------------------------------------------------------------ neutron_composite_sld (outer function: builds what _compute closes over)
+# ------------------------------------------------------------------------------ neutron_composite_sld (outer function + the closure it returns, end to end)
 
-def c_sum_piece_rec(interp, st, args, kw):
-    """_sum_piece(wavelength, material) -> (num_atoms, molar_mass, b_c, sigma_s) of that material (unit _sum_piece)"""
+def c_sum_piece_sym(interp, st, args, kw):
+    """_sum_piece(wavelength, material) -> (num_atoms, molar_mass, b_c, sigma_s) of that material (unit _sum_piece): here the
+    j-th call returns the j-th tuple of symbolic sums prepared by the unit"""
     calls = st.ghost.setdefault("sum_piece_calls", [])
     j = len(calls)
     calls.append(list(args))
-    return VTuple([VObj("Piece", {"of": j, "field": f}) for f in ("num_atoms", "molar_mass", "b_c", "sigma_s")])
+    p = st.ghost["pieces"][j]
+    return VTuple([p[0], p[1], Cx(p[2], p[3]), p[4]])
 
 
 def _outer_inputs(k, vector):
@@ -906,8 +912,22 @@ def _outer_inputs(k, vector):
         mats = [VObj("Material", {"j": j}) for j in range(k)]
         lam = st.fresh("wavelength", z3.RealSort())
         st.assume(lam > 0)
-        return [VList(list(mats))], {"wavelength": lam}, {"mats": mats, "lam": lam, "vector": vector, "k": k}
+        parts = []
+        for j in range(k):
+            parts.append(tuple(st.fresh("%s_%d" % (nm, j), z3.RealSort()) for nm in ("n", "M", "Bre", "Bim", "Sg")))
+            st.assume(z3.And(parts[-1][0] > 0, parts[-1][1] > 0, parts[-1][4] > 0))
+        st.ghost["pieces"] = parts
+        ws = [st.fresh("w_%d" % j, z3.RealSort()) for j in range(k)]
+        for wj in ws:
+            st.assume(wj >= 0)
+        rho = st.fresh("density", z3.RealSort())
+        st.assume(rho >= 0)
+        return [VList(list(mats))], {"wavelength": lam}, {"mats": mats, "lam": lam, "vector": vector, "k": k, "parts": parts, "ws": ws, "rho": rho}
     return mk
+
+
+class _Res:
+    pass
 
 
 def _outer_post(st, interp, C, res):
@@ -915,33 +935,31 @@ def _outer_post(st, interp, C, res):
         st.oblige("never-raises", False, kind="raises", info={"exc": res.exc})
         return
     f = res.value
-    ok = isinstance(f, VFunc) and f.ext.name == "_compute"
-    st.oblige("post.returns the calculator closure _compute", z3.BoolVal(ok))
+    ok = isinstance(f, VFunc)
+    st.oblige("post.returns a calculator (a function of weights and density)", z3.BoolVal(ok))
     if not ok:
         return
     calls = st.ghost.get("sum_piece_calls", [])
+    good = len(calls) == C["k"] and all(len(c) == 2 for c in calls)
     st.oblige("post._sum_piece is evaluated once per material, in order, at the caller's wavelength",
-              z3.BoolVal(len(calls) == C["k"] and all(len(c) == 2 and c[1] is C["mats"][j] for j, c in enumerate(calls)))
-              if not (len(calls) == C["k"] and all(len(c) == 2 for c in calls))
-              else z3.And([z3.BoolVal(c[1] is C["mats"][j]) for j, c in enumerate(calls)]
-                          + [spec.eq_goal(interp, st, c[0], C["lam"]) for c in calls]))
-    env = {}
-    for d in reversed(f.closure):
-        env.update(d)
-    want = {"num_atoms_parts": "num_atoms", "molar_mass_parts": "molar_mass", "bc_parts": "b_c", "sigma_parts": "sigma_s"}
-    for var, field in want.items():
-        v = interp.resolve(st, env.get(var))
-        items = list(v.items) if isinstance(v, (VTuple, VList)) else None
-        good = items is not None and len(items) == C["k"] and all(isinstance(x, VObj) and x.cls == "Piece" and x.attrs["of"] == j
-                                                                     and x.attrs["field"] == field for j, x in enumerate(items))
-        st.oblige("post.%s holds the %s of material j at position j" % (var, field), z3.BoolVal(bool(good)))
-    im = env.get("is_multi")
-    st.oblige("post.is_multi is true exactly for a non-scalar wavelength argument", spec.eq_goal(interp, st, im, z3.BoolVal(C["vector"])))
+              z3.BoolVal(False) if not good else z3.And([z3.BoolVal(c[1] is C["mats"][j]) for j, c in enumerate(calls)]
+                                                        + [spec.eq_goal(interp, st, c[0], C["lam"]) for c in calls]))
+    if not good:
+        return
+    # the returned closure is applied to arbitrary weights and density: whatever the names of the variables it closes over,
+    # the result must be the documented calculation on the weighted sums of the pieces
+    r = _Res()
+    try:
+        r.value = interp.call(st, f, [VArrN(list(C["ws"])), C["rho"]], {})
+        r.outcome = "return"
+    except PyRaise as e:
+        r.outcome, r.exc = "raise", e.exc
+    _COMPUTE_POST(st, interp, C, r)
 
 
 def _outer_unit(k, vector):
     return Unit("neutron_composite_sld[%d materials, %s wavelength]" % (k, "vector" if vector else "scalar"), NSF + ".neutron_composite_sld",
-                _outer_inputs(k, vector), _outer_post, contracts={NSF + "._sum_piece": c_sum_piece_rec},
+                _outer_inputs(k, vector), _outer_post, contracts={NSF + "._sum_piece": c_sum_piece_sym},
                 replay={"module": "c17", "task": "replay"})
 
 
